@@ -351,13 +351,26 @@ fn with_prefix_msgs(buflen: usize, limit: usize, mode: &str, fill: u8, ops: &[&s
 fn audit_line(head: &str, result: &str) -> Option<String> {
     let h: Vec<&str> = head.split(' ').collect();
     let r: Vec<&str> = result.split(' ').collect();
-    if h.len() != 5 || r.len() != 4 || r[0] != "ok" || r[2] == "-" {
+    // sessions that panicked are audited too (the specification says they must not)
+    if h.len() != 5 || r.len() != 4 || r[0] != "ok" {
         return None;
     }
     let (bl, li, fi) = (h[0].parse().ok()?, h[1].parse().ok()?, h[2 + 1].parse().ok()?);
     let ops: Vec<&str> = h[4].split(';').collect();
     let msgs = with_prefix_msgs(bl, li, h[2], fi, &ops, r[2]);
-    Some(format!("waudit {} {} {} {}", head, r[1], msgs, r[3]))
+    Some(format!("{} {} {} {} {}", AUDIT_OP.with(|c| c.get()), head, r[1], msgs, r[3]))
+}
+
+thread_local! {
+    /// `waudit` for group `writer` (C12: everything), `paudit` for group `writerptr` (C13: the
+    /// pointer audit only)
+    static AUDIT_OP: std::cell::Cell<&'static str> = std::cell::Cell::new("waudit");
+}
+
+/// group `writerptr`: the same sessions, audited for C13 only
+pub fn gen_ptr(rng: &mut Rng, thorough: bool, em: &mut Emitter) {
+    AUDIT_OP.with(|c| c.set("paudit"));
+    gen(rng, thorough, em);
 }
 
 pub fn run(op: &str, a: &[&str]) -> Option<String> {
@@ -368,7 +381,7 @@ pub fn run(op: &str, a: &[&str]) -> Option<String> {
             };
             Some(exec(bl, li, mode, fi, ops))
         }
-        ("waudit", [buflen, limit, mode, fill, ops, st, msg, mac]) => {
+        ("waudit" | "paudit", [buflen, limit, mode, fill, ops, st, msg, mac]) => {
             let (Ok(bl), Ok(li), Ok(fi)) = (buflen.parse::<usize>(), limit.parse::<usize>(), fill.parse::<u8>()) else {
                 return Some("bad-op".into());
             };
